@@ -109,6 +109,10 @@ fn fixed_corpus() -> Vec<(&'static str, String)> {
     v.push(s("rule+update", "PREFIX e: <http://e/> RULE :Derived :- CONSTRUCT { ?x e:derived e:yes . } WHERE { ?x e:p0 ?y . } .\nDELETE WHERE { ?s e:p0 ?o }"));
     v.push(s("rule+select", "RULE :Derived :- CONSTRUCT { ?x <http://e/derived> <http://e/yes> . } WHERE { ?x <http://e/p0> ?y . } .\nSELECT ?s WHERE { ?s <http://e/p0> ?o }"));
     v.push(s("retrieve+update", "RETRIEVE SOME ACTIVE STREAM ?st FROM <http://e/catalog> WITH { ?st a <http://e/Stream> . }\nINSERT { ?s <http://e/p1> ?o } WHERE { ?s <http://e/p0> ?o }"));
+    // numeric escapes inside IRIs and literals, in every place an IRI is lexed (the sweep cuts their bodies with multi-byte characters)
+    v.push(s("escapes", "PREFIX x: <http://e/\\u0070re#> SELECT ?s FROM <http://e/g\\u0030> WHERE { ?s <http://e/p\\u0030> <http://e/\\U0001F600x> . GRAPH <http://e/g\\U00000031> { ?s ?p \"a\\u00e9\\U0001F600\"^^<http://e/d\\u0074> } VALUES ?p { <http://e/p\\u0031> } FILTER(?s != <http://e/s\\u0030>) }"));
+    v.push(s("escapes", "INSERT DATA { <http://e/s\\u0030> <http://e/p0> \"x\\u0041\" . GRAPH <http://e/g\\u0030> { <http://e/s1> <http://e/p\\U00000031> <http://e/o\\u0030> } }"));
+    v.push(s("escapes", "DELETE { ?s <http://e/p\\u0030> ?o } INSERT { ?s <http://e/p\\u0031> ?o } WHERE { ?s <http://e/p\\u0030> ?o }"));
     v.push(s("garbage", "this is not sparql at all { ? } <"));
     v.push(s("garbage", ""));
     v.push(s("garbage", "SELECT"));
